@@ -18,7 +18,7 @@ ASSUMPTIONS = ["Bezier reversed/split: rounding bound; interior Bezier crops (t1
 RULE += ' Also: Segments under test are also products of reversed() or of an end crop; a no-scipy configuration covers the length clauses on small Bezier paths.'   # added after the seeded-change rounds (DESIGN.md section 10)
 CONFIGS = ['scipy', 'noscipy']
 BUDGET = {'quick': {'scipy': 20000, 'noscipy': 240}, 'thorough': {'scipy': 300000, 'noscipy': 8000}}
-REQUIRED = ['segment_obtained_from_reversed', 'seg:L', 'seg:Q', 'seg:C', 'seg:A', 'path', 'path:wraparound', 'path:repeated_segment', 'path:joint_T', 'interior_crop']
+REQUIRED = ['reversed_of_cropped_piece', 'segment_obtained_from_reversed', 'seg:L', 'seg:Q', 'seg:C', 'seg:A', 'path', 'path:wraparound', 'path:repeated_segment', 'path:joint_T', 'interior_crop']
 TIME_LIMIT = {'quick': 250, 'thorough': 3300}
 
 EPS = 2.0 ** -52
@@ -169,6 +169,13 @@ def check_seg(case, ctx):
         # but the search is on the curve trimmed to [t0,1]: scale the tolerance by 1/(1-t0)
         if interior and kind != 'A':
             tol = tol / max(1 - t0, 1e-6)
+        # the piece is a segment in its own right: its reversed copy traces it backwards (operations applied to results of operations)
+        cr = ctx.lib('reversed/' + kind, c.reversed)
+        ctx.count('reversed_of_cropped_piece')
+        for u in us:
+            want = pt(t0 + (1 - u) * (t1 - t0))
+            ctx.check(abs(complex(cr.point(u)) - want) <= tol * 2, 'cropped_then_reversed/%s' % kind,
+                      'cropped(%r,%r).reversed().point(%r)=%r but the original curve is at %r there' % (t0, t1, u, cr.point(u), want))
         for u in us:
             want = pt(t0 + u * (t1 - t0))
             ctx.check(abs(complex(c.point(u)) - want) <= tol, 'cropped/%s%s/%s' % (kind, '/interior' if interior else '', case['tag'] if kind == 'C' else '-'),
